@@ -167,20 +167,18 @@ unsafe impl<T, N: ArrayLength> GenericSequence<T> for Box<GenericArray<T, N>> {
         F: FnMut(usize) -> T,
     {
         unsafe {
-            use core::{
-                alloc::Layout,
-                mem::{size_of, MaybeUninit},
-                ptr,
-            };
+            use core::mem::MaybeUninit;
 
-            // Box::new_uninit() is nightly-only
-            let ptr: *mut GenericArray<MaybeUninit<T>, N> = if size_of::<T>() == 0 {
-                ptr::NonNull::dangling().as_ptr()
-            } else {
-                alloc::alloc::alloc(Layout::new::<GenericArray<MaybeUninit<T>, N>>()).cast()
-            };
+            // Allocating through `Box` never asks the allocator for a zero-sized block,
+            // reports allocation failure via `handle_alloc_error`, and frees the block
+            // again if `f` panics (the builder below drops the elements written so far).
+            let mut array = Box::<GenericArray<T, N>>::new_uninit();
 
-            let mut builder = IntrusiveArrayBuilder::new(&mut *ptr);
+            let mut builder = IntrusiveArrayBuilder::new(
+                &mut *array
+                    .as_mut_ptr()
+                    .cast::<GenericArray<MaybeUninit<T>, N>>(),
+            );
 
             {
                 let (builder_iter, position) = builder.iter_position();
@@ -193,7 +191,7 @@ unsafe impl<T, N: ArrayLength> GenericSequence<T> for Box<GenericArray<T, N>> {
 
             builder.finish();
 
-            Box::from_raw(ptr.cast()) // IntrusiveArrayBuilder::array_assume_init
+            array.assume_init()
         }
     }
 }
